@@ -728,6 +728,14 @@ func FetchWithParallelRangeRequests(client *http.Client, rawURL string, cfg *Fet
 			return
 		}
 
+		// A range answer must be exactly the requested span. A short or long
+		// body, or a 200 carrying the whole resource, would otherwise be
+		// concatenated into bytes that are not the resource.
+		if want := rangeEnd - rangeStart + 1; int64(len(data)) != want {
+			resultCh <- chunkResult{index: index, err: fmt.Errorf("range request returned %d bytes, want %d (status %d)", len(data), want, resp.StatusCode), hedge: isHedge}
+			return
+		}
+
 		elapsed := time.Since(start)
 		mu.Lock()
 		completionTimes = append(completionTimes, elapsed)
